@@ -270,7 +270,12 @@ impl<const NB_PROOFS: usize> LightAggregator<NB_PROOFS> {
             inner_vk: inner_vk.clone(),
             aggregator_vk,
             aggregator_pk,
-            lagrange_commitments: srs.g_lagrange()[..(nb_coms_per_proof * NB_PROOFS)].to_vec(),
+            // The accumulator's right-hand side also carries the fixed bases of the inner
+            // vk, which do not scale with the number of proofs: this estimate is too small
+            // for a single proof, keep at least twice the per-proof count.
+            lagrange_commitments: srs.g_lagrange()
+                [..(nb_coms_per_proof * NB_PROOFS.max(2)).min(srs.g_lagrange().len())]
+                .to_vec(),
         })
     }
 
